@@ -122,12 +122,16 @@ Inductive gval :=
    uninterpreted value built by a constructor name (a hash, a signature, the result of a pure method on one) *)
 | VOrc (name : string) (answers : list (string * list gval))
 | VTok (name : string) (args : list gval)
+| VAtom (name : string) (cur : N)              (* an atomic.Uint64 holding cur: Load / CompareAndSwap *)
 | VUnit.
 
 Definition env := list (string * gval).
 (* list length / append of list VALUES, under their own names so that a proof can keep them folded while the
    evaluator's own use of [length] / [++] computes *)
 Definition llen (l : list gval) : N := N.of_nat (length l).
+(* equality of two string VALUES of the program (hashes given by name), under its own name for the same reason *)
+Definition str_eqb (a b : string) : bool := String.eqb a b.
+Definition str_app (a b : string) : string := String.append a b.   (* concatenation of two string VALUES of the program *)
 Definition lapp (a b : list gval) : list gval := a ++ b.
 
 Fixpoint lookup {A} (l : list (string * A)) (x : string) : option A :=
@@ -278,7 +282,12 @@ Definition meth (v : gval) (m : string) (args : list gval) : res gval :=
       if m =? "Before" then RRet (VBool (t <? u)%Z) else RFail ("Time." ++ m)
   | VZ t, [VZero ty] =>                                        (* nothing is before the zero time.Time *)
       if (m =? "Before") && (ty =? "time.Time") then RRet (VBool false) else RFail ("Time." ++ m)
-  | VUnit, [] => if m =? "Err" then RRet (VErr true) else RFail ("ctx." ++ m)    (* ctx.Err() after ctx.Done() fired *)
+  | VAtom _ cur, [] => if m =? "Load" then RRet (VN cur) else RFail ("atomic." ++ m)
+  | VUnit, [] => if m =? "Err" then RRet (VErr true) else RFail ("ctx." ++ m)
+  | VZero ty, [] =>                                            (* new(types.Data).DACommitment(): the hash of the empty tx list *)
+      if (ty =? "Data") && (m =? "DACommitment") then RRet (VIdD 0) else RFail ("zero value." ++ m)
+  | VZ t, [] => if m =? "UnixNano" then RRet (VZ t) else RFail ("Time." ++ m)
+  | VUnit, [VLE64 n] => if m =? "Uint64" then RRet (VN n) else RFail ("binary.LittleEndian." ++ m)    (* ctx.Err() after ctx.Done() fired *)
   | VTok _ _, _ => RRet (VTok m (v :: args))                   (* a pure method of an uninterpreted value *)
   | VOrc _ answers, _ =>                                       (* read in an expression: the first answer, not logged *)
       match lookup answers m with
@@ -369,6 +378,8 @@ Definition builtin (globals : env) (f : string) (args : list gval) : res gval :=
     | [VTxs None] => RRet (VN 0)
     | [VList l] => RRet (VN (llen l))
     | [VTok _ _] => RRet (VTok "len" args)
+    | [VLE64 _] => RRet (VN 8)
+    | [VStr _] => RRet (VTok "len" args)
     | [VTxsQ _] => RRet (VN 1)                 (* a VTxsQ is a NON-EMPTY transaction list, by id; its length only matters as "not 0" *)
     | _ => RFail "len"
     end
@@ -379,6 +390,7 @@ Definition builtin (globals : env) (f : string) (args : list gval) : res gval :=
     | [VRoot a; VRoot b] => RRet (VBool (a =? b)%N)
     | [VIdD a; VIdD b] => RRet (VBool (a =? b)%N)
     | [VChainQ a; VChainQ b] => RRet (VBool (a =? b)%N)
+    | [VStr a; VStr b] => RRet (VBool (str_eqb a b))           (* hashes given by name *)
     | _ => RFail "bytes.Equal"
     end
   else if f =? "KeyAddress" then
@@ -429,6 +441,7 @@ Definition builtin (globals : env) (f : string) (args : list gval) : res gval :=
     | [VDAErr e; VCtxCanceled] => RRet (VBool (Proxy.e_ctx e))
     | [VErrTag a; VErrTag b] => RRet (VBool (a =? b))
     | [VErr _; VErrTag _] => RRet (VBool false)
+    | [VNil; VErrTag _] => RRet (VBool false)
     | _ => RFail "errors.Is"
     end
   else if f =? "strings.Contains" then
@@ -441,6 +454,12 @@ Definition builtin (globals : env) (f : string) (args : list gval) : res gval :=
     | [VId h] => RRet (VTuple [VN h; VUnit; VNil])
     | _ => RFail "SplitID"
     end
+  else if (f =? "getHeaderKey") || (f =? "getDataKey") || (f =? "getSignatureKey") || (f =? "getStateKey") ||
+          (f =? "getMetaKey") || (f =? "getIndexKey") || (f =? "getHeightKey") then
+    RRet (VTok f args)                                         (* pkg/store/keys.go: a key, by the function that builds it and its argument *)
+  else if f =? "filepath.Join" then RRet (VTok f args)           (* a path, by its components *)
+  else if f =? "gob.NewEncoder" then match args with [w] => RRet w | _ => RFail "gob.NewEncoder" end   (* encoding into w *)
+  else if f =? "gob.Register" then RRet VUnit
   else if f =? "$ctxdone" then                                 (* select { case <-ctx.Done(): ...; default: } *)
     match lookup globals "$cancelled" with
     | Some (VBool b) => RRet (VBool b)
@@ -476,6 +495,8 @@ Definition is_nil (v : gval) : option bool :=
   | VRec _ => Some false
   | VBatchQ _ => Some false
   | VIdsResult _ _ => Some false
+  | VOrc _ _ => Some false
+  | VObj _ _ => Some false
   | _ => None
   end.
 
@@ -503,7 +524,7 @@ Definition arith (o : binop) (a b : gval) : res gval :=
   | OSub, VZ x, VZ y => RRet (VZ (x - y))
   | OMul, VZ x, VZ y => RRet (VZ (x * y))
   | OEq, VBool x, VBool y => RRet (VBool (Bool.eqb x y))
-  | OAdd, VStr x, VStr y => RRet (VStr (x ++ y))
+  | OAdd, VStr x, VStr y => RRet (VStr (str_app x y))
   (* comparison with nil: the literal nil is recognised by its constructor, so that the nil-ness [p] of the other side
      may stay symbolic (no match on it) *)
   | OEq, x, VNil => match is_nil x with Some p => RRet (VBool p) | None => RFail "==" end
@@ -558,6 +579,10 @@ Definition mut_meth (v : gval) (m : string) (args : list gval) : option (gval * 
         | None => Some (VErr true, None, [])
         end
       else None
+  | VZero ty, [VTok n [x]] =>                                  (* v.UnmarshalBinary(stored bytes): a blob is given by what it decodes to *)
+      if (m =? "UnmarshalBinary") && (n =? "blob") then Some (VNil, Some x, []) else None
+  | VZero ty, [VTok n []] =>
+      if (m =? "UnmarshalBinary") && (n =? "bad-blob") then Some (VErr true, None, []) else None
   | VZero ty, [VBlob b] =>
       if (ty =? "SignedData") && (m =? "UnmarshalBinary") then          (* signedData.UnmarshalBinary(bz) *)
         match b with
@@ -598,6 +623,10 @@ Definition eff_meth (v : gval) (m : string) (args : list gval) : option (res (gv
       if m =? "Put" then Some (RIf ok (RRet (VNil, [VEff "put" [VKeyQ k; VBatchQ b]])) (RRet (VErr true, []))) else None
   | VQDB ok, [_; VKeyQ k] =>
       if m =? "Delete" then Some (RRet (VNil, [VEff "delete" [VKeyQ k]])) else None
+  | VAtom name cur, [VN old; VN new] =>
+      if m =? "CompareAndSwap"
+      then Some (RIf (old =? cur)%N (RRet (VBool true, [VEff (String.append name ".store") [VN new]])) (RRet (VBool false, [])))
+      else None
   | VAtomicI w, [VN old; VN new] =>
       if m =? "CompareAndSwap"
       then Some (RIf (old =? iw_di w)%N (RRet (VBool true, [VEff "publish" [VN new]])) (RRet (VBool false, [])))
@@ -755,6 +784,7 @@ Fixpoint eval (fuel : nat) (fs : list (string * gfun)) (globals en : env) (e : g
                                        | VTxs None => RRet (VData {| d_meta := None; d_txs := [] |})
                                        | _ => RFail "Data{Txs: ?}" end)
               else RFail "Data literal"
+          | [] => RRet (VData {| d_meta := None; d_txs := [] |})          (* &types.Data{} *)
           | _ => RFail "Data literal"
           end
         else if ty =? "Batch" then
@@ -860,7 +890,21 @@ with exec (fuel : nat) (fs : list (string * gfun)) (globals en : env) (lg : list
                   | Some b => exec fuel' fs globals (b ++ apply_updates en args ups) lg rest
                   | None => RFail "assignment arity"
                   end
-              | None => assign_pure xs (ECall f args)
+              | None =>
+                  (* a package-level function with an effect (os.Create, os.Rename, ...): scripted like a collaborator's
+                     method, through the global "$pkg" *)
+                  match lookup globals "$pkg" with
+                  | Some pk =>
+                      match orc_meth pk f vs lg with
+                      | Some (result, eff) =>
+                          match bind_result xs result with
+                          | Some b => exec fuel' fs globals (b ++ en) (eff :: lg) rest
+                          | None => RFail "assignment arity"
+                          end
+                      | None => assign_pure xs (ECall f args)
+                      end
+                  | None => assign_pure xs (ECall f args)
+                  end
               end)
           end
       | SAssign xs e => assign_pure xs e
